@@ -112,7 +112,11 @@ pub fn compose(img: &AnimImage) -> Vec<Canvas> {
         .map(|c| if c < img.num_color { depth_scale(&ih.metadata.bit_depth) } else { depth_scale(&ih.metadata.ec_info[c - img.num_color].bit_depth) })
         .collect();
     let has_extra = !ih.metadata.ec_info.is_empty();
-    for fr in &img.frames {
+    let dbg: Option<(usize, usize)> = std::env::var("JXLGEN_COMPOSE_DEBUG").ok().and_then(|v| {
+        let mut it = v.split(',').map(|t| t.parse::<usize>().ok());
+        Some((it.next()??, it.next()??))
+    });
+    for (fi, fr) in img.frames.iter().enumerate() {
         let fh = &fr.fh;
         // frame samples as floats
         let fw = fh.width as usize;
@@ -165,6 +169,11 @@ pub fn compose(img: &AnimImage) -> Vec<Canvas> {
                         // ... plus rounding of this step: a few ulps of the operands and result,
                         // and for the straight-alpha division the conditioning of 1 - (1-a)(1-b)
                         e += 4.0 * EPS32 * (old.abs() + new.abs() + v.abs() + 1.0);
+                        // an unbounded input stays unbounded (f64::max drops the NaN that an infinite
+                        // perturbation produces, which would leave a finite, wrong bound)
+                        if !e_old.is_finite() || (uses_alpha && !e_old_a.is_finite()) || !e.is_finite() {
+                            e = f64::INFINITY;
+                        }
                         if info.mode == BlendMode::Blend && uses_alpha && !is_a && !premult {
                             let na = if info.clamp { new_a.clamp(0.0, 1.0) } else { new_a };
                             let mixed = 1.0 - (1.0 - na) * (1.0 - old_a);
@@ -181,6 +190,21 @@ pub fn compose(img: &AnimImage) -> Vec<Canvas> {
                     } else {
                         (old, e_old)
                     };
+                    if let Some((dx, dy)) = dbg {
+                        if (x, y) == (dx, dy) {
+                            let inside = fx >= 0 && fy >= 0 && (fx as usize) < fw && (fy as usize) < fhh;
+                            eprintln!(
+                                "frame {fi} ch {c}: mode {:?} src {} alpha_ch {} clamp {} old {old} new {:?} old_a {:?} new_a {:?} -> {v} err {e} e_old {e_old}",
+                                info.mode,
+                                info.source,
+                                info.alpha_channel,
+                                info.clamp,
+                                if inside { Some(fsample(c, fx as usize, fy as usize)) } else { None },
+                                bg.map(|b| b.planes[a_idx.min(nch - 1)][y * cw + x]),
+                                if inside { Some(fsample(a_idx.min(nch - 1), fx as usize, fy as usize)) } else { None },
+                            );
+                        }
+                    }
                     result.planes[c][y * cw + x] = v;
                     result.errs[c][y * cw + x] = e;
                 }
